@@ -553,7 +553,29 @@ class SelectorReset(LibModel):
             st = st.clone()
             st.ghost['record'] = v
             return [st]
+        if isinstance(recv, ZV) and recv.ty == 'node' and recv.t.eq(self.n) and name == '_concluded_now_':
+            st = st.clone()
+            st.ghost['now'] = v
+            return [st]
         return super().setattr(eng, st, recv, name, v)
+
+    def getattr(self, eng, st, recv, name):
+        if isinstance(recv, ZV) and recv.ty == 'node' and recv.t.eq(self.n) and name == '_conclusion_':
+            return [(st, Obj('ownselection', {}))]
+        if isinstance(recv, Obj) and recv.kind == 'ownselection':
+            return [(st, Meth(recv, name))]
+        return super().getattr(eng, st, recv, name)
+
+    def obj_ownselection_clear(self, eng, st, recv, args, kwargs, node):
+        st = st.clone()
+        st.ghost['selection_cleared'] = True
+        return [(st, NONE)]
+
+    def node__clear_conclusion_(self, eng, st, recv, args, kwargs, node):
+        q = self.src.resolve_method(self.cls, '_clear_conclusion_')
+        if q is None or not recv.t.eq(self.n):
+            raise OutOfSubset("_clear_conclusion_ of something else than the node itself", node)
+        return self.inline_method(eng, st, q, recv, args, kwargs, node)
 
     def on_exit(self, eng, o):
         st = o.st
@@ -566,6 +588,11 @@ class SelectorReset(LibModel):
         eng.oblige(st, "C12/selector-classes-declare-that-they-select-conclusions",
                    z3.BoolVal(bool(sel) and all(self.src.class_constant(c, '_selects_conclusions_') == (True, True) for c in sel)))
         eng.oblige(st, "C04/selector-reset/the-base-reset-runs", z3.BoolVal(st.ghost['base_reset'] >= 1))
+        # ... and what was selected for the output at which an evaluation was abandoned is gone: the own (dynamic) set is
+        # emptied and no retraction record stays behind
+        now = st.ghost.get('now', 'unset')
+        eng.oblige(st, "C04/selector-reset/no-selected-conclusion-is-left-behind",
+                   z3.BoolVal(bool(st.ghost.get('selection_cleared')) and isinstance(now, C) and now.v is None))
         r = st.ghost['record']
         if isinstance(r, D):
             eng.oblige(st, "C04/selector-reset/nothing-concluded-before-is-remembered", st.dicts[r.ref].is_empty())
